@@ -5,6 +5,7 @@ stdout: JSON {"results": [{"name":..., "keyhash":..., "error":..., "pickles": {s
 """
 
 import base64
+import gc
 import json
 import pickle
 import sys
@@ -23,19 +24,25 @@ def main():
     out = []
     for j in job["jobs"]:
         r = {}
-        try:
-            x = c07.build_output(j["program"])
-            r.update(c07.describe(x, compute=False))
-        except Exception as e:
-            r["error"] = f"{type(e).__name__}: {e}"[:300]
+        # unpickle BEFORE anything with the same names exists here, latest stage first, dropping each one:
+        # an unpickled collection must stand on its own (no live twin expression to dedup against)
         pk = {}
-        for stage, b64 in (j.get("pickles") or {}).items():
+        for stage, b64 in reversed(list((j.get("pickles") or {}).items())):
             try:
                 y = pickle.loads(base64.b64decode(b64))
                 pk[stage] = c07.describe(y, compute=True)
             except Exception as e:
                 pk[stage] = {"error": f"{type(e).__name__}: {e}"[:300]}
+            y = None
+            gc.collect()
         r["pickles"] = pk
+        try:
+            x = c07.build_output(j["program"])
+            r.update(c07.describe(x, compute=False))
+        except Exception as e:
+            r["error"] = f"{type(e).__name__}: {e}"[:300]
+        x = None
+        gc.collect()
         out.append(r)
     import dask_array
 
